@@ -268,13 +268,48 @@ fn gadget(t: &mut Tape, b: &mut Builder) {
                 first = false;
             }
             // define C in the block itself (anywhere) or at the end of a predecessor
-            let preds: Vec<usize> = b.f.edges.iter().filter(|e| e.1 == h && e.0 != h).map(|e| e.0).collect();
+            let mut preds: Vec<usize> = b.f.edges.iter().filter(|e| e.1 == h && e.0 != h).map(|e| e.0).collect();
+            if preds.iter().collect::<std::collections::BTreeSet<_>>().len() == 1 && t.chance(2, 3) {
+                // give the guarded block a second predecessor: the edge p -> h is split over a 1-bit
+                // selector, one half goes through a new empty block q (guards of p stay exclusive
+                // and exhaustive)
+                let p = preds[0];
+                let x = b.some_scalar(t, 1);
+                let q = b.f.blocks.len();
+                b.f.blocks.push(Vec::new());
+                let idx = b.f.edges.iter().position(|e| e.0 == p && e.1 == h).unwrap();
+                let xs = esc(&x.0, 1);
+                let nx = il::Expression::Cmpeq(bx(xs.clone()), bx(konst(0, 1)));
+                let (g1, g2) = match b.f.edges[idx].2.clone() {
+                    None => (xs, nx),
+                    Some(g) => (il::Expression::And(bx(g.clone()), bx(xs)), il::Expression::And(bx(g), bx(nx))),
+                };
+                b.f.edges[idx].2 = Some(g1);
+                b.f.edges.push((p, q, Some(g2)));
+                b.f.edges.push((q, h, None));
+                preds.push(q);
+            }
             let def = il::Operation::Assign { dst: sc(&c.0, 1), src: cmp };
-            if !preds.is_empty() && t.chance(1, 4) {
-                // every predecessor defines it (otherwise the guard may read an undefined scalar)
-                for p in preds {
+            let several = preds.iter().collect::<std::collections::BTreeSet<_>>().len() >= 2;
+            if !preds.is_empty() && if several { t.chance(3, 5) } else { t.chance(1, 4) } {
+                // every predecessor defines it (otherwise the guard may read an undefined scalar);
+                // with several predecessors each gets its own definition, so that two or more
+                // definitions reach the guard and the guard is their only use
+                let mut done = std::collections::BTreeSet::new();
+                for (k, p) in preds.into_iter().enumerate() {
+                    if !done.insert(p) {
+                        continue;
+                    }
                     let at = b.f.blocks[p].len();
-                    b.insert(p, at, def.clone());
+                    let d = if several && k > 0 {
+                        il::Operation::Assign { dst: sc(&c.0, 1), src: if t.chance(1, 2) { konst((k & 1) as u128, 1) } else { il::Expression::Cmpeq(bx(small_expr(t, b, w)), bx(small_expr(t, b, w))) } }
+                    } else {
+                        def.clone()
+                    };
+                    b.insert(p, at, d);
+                }
+                if several {
+                    b.gadgets.push("guard-use-several-definitions".to_string());
                 }
                 if h == 0 {
                     b.insert(0, 0, def);
@@ -1562,6 +1597,7 @@ fn main() -> std::process::ExitCode {
         ("several-exits", 0.05),
         ("only-use-two-operand-instruction", 0.15),
         ("only-use-guard", 0.05),
+        ("gadget-guard-use-several-definitions", 0.02),
         ("only-use-store-operand", 0.10),
         ("only-use-self-update", 0.03),
         ("feeds-self-update", 0.10),
